@@ -27,6 +27,7 @@ LIST_MUTATORS = {"append", "extend", "insert", "pop", "remove", "sort", "reverse
 ARRAY_MUTATORS = {"fill", "resize", "put", "itemset", "partition", "sort"}
 DICT_MUTATORS = {"update", "setdefault", "popitem", "clear", "pop"}
 SET_MUTATORS = {"add", "discard", "remove", "update", "clear", "pop"}
+NDARRAY_METHODS = frozenset({"sum", "mean", "max", "min", "argmin", "argmax", "dot", "trace", "cumsum", "prod", "std", "var", "any", "all"})
 ALL_MUTATOR_METHODS = LIST_MUTATORS | ARRAY_MUTATORS | DICT_MUTATORS | SET_MUTATORS
 NP_INPLACE = {"numpy.copyto": 0, "numpy.put": 0, "numpy.place": 0, "numpy.putmask": 0, "numpy.fill_diagonal": 0,
               "random.shuffle": 0, "numpy.random.shuffle": 0}
@@ -1111,6 +1112,10 @@ class TermBuilder:
                 return tm.transpose(recv)
             if c.target == "copy" and not args:
                 return App("numpy.copy", (recv,))
+            if c.target in NDARRAY_METHODS:
+                # x.sum(), x.mean(axis=0), x.dot(y): the ndarray method is the numpy function applied to the receiver (no other
+                # type in this code base has methods of these names: lists, dicts and the containers do not)
+                return tm.make_app("numpy." + c.target, [recv] + args, kw)
             return App("." + c.target, [recv] + args, kw)
         if c.kind == "local":
             # a local variable that holds one of several known functions:  f = a if c else b;  f(x)   ==   pw{c -> a(x); !c -> b(x)}
